@@ -49,6 +49,8 @@ type Opaque struct {
 	JSON *JNode
 	// NotNilWord: known to differ from "<nil>".
 	NotNilWord bool
+	// Ptr, when set: the text is that of this non-nil pointer ("0x" and hex digits).
+	Ptr *Value
 	// Tag, when set, marks the string as the struct tag of a symbolic struct field (C20).
 	Tag *SymField
 }
